@@ -46,6 +46,7 @@ ACCESSORS = {
     'C16': {
         ST + 'partitions::partition::Partition::get_messages_count': 'Atomic::load(self.messages_count, Ordering::SeqCst{})',
         ST + 'partitions::partition::Partition::get_segments_count': 'Vec::len(self.segments)',
+        ST + 'segments::segment::Segment::get_messages_count': 'phi{((self.current_offset - self.start_offset) + 1) | 0}',   # what load adds to and delete subtracts from the message counters
         ST + 'topics::topic::Topic::get_messages_count': 'Atomic::load(self.messages_count, Ordering::SeqCst{})',
         ST + 'topics::topic::Topic::get_partitions_count': 'HashMap::len(self.partitions)',
         ST + 'streams::stream::Stream::get_messages_count': 'Atomic::load(self.messages_count, Ordering::SeqCst{})',
